@@ -2,8 +2,10 @@
 the real ones on every T1 run.  If one of them is ever reported proved, the engine (not /repo) is broken: the run is a
 checker crash, never a verdict.  (The first canary is the shape that exposed an induction hypothesis wrongly quantified
 over a parameter of the base expression; see DESIGN §7.)"""
+import os
+
 from pyvc import dsl, driver, solve
-from pyvc.types import Int, Arr
+from pyvc.types import Int, Arr, Float, Bool, List
 
 
 def _registry():
@@ -38,3 +40,89 @@ def wrongly_proved(timeout_ms=2500):
         if rs and all(r == "unsat" for r in rs):
             bad.append(name)
     return bad, len(jobs)
+
+
+# ---- function-level canaries: false clauses on tiny functions (pyvc/canary_src.py) ---------------------------------
+SRC = "pyvc/canary_src.py::"
+INV_I = {"i": "0 <= i"}
+
+
+def _fn_registry():
+    reg = dsl.Registry()
+    # a write through an alias of a parameter inside a loop must be seen (havoc + store): a[0] is NOT preserved
+    reg.contract(SRC + "c_alias", props=[], params=dict(a=Arr(Int), n=Int), requires={"n": "n >= 1 and len(a) >= n"},
+                 modifies=["a"], returns=Int, ensures={"FALSE": "result == old(a)[0]"},
+                 loops={1: dict(inv={"i": "0 <= i and i <= n"})})
+    # a variable assigned on one path of a loop body is havocked at the head
+    reg.contract(SRC + "c_havoc", props=[], params=dict(n=Int), returns=Int, ensures={"FALSE": "result == 0"},
+                 loops={1: dict(inv={"t": "True"})})
+    # the break path leaves the loop without the exit condition
+    reg.contract(SRC + "c_break", props=[], params=dict(a=Arr(Int), n=Int), requires={"n": "n >= 0 and len(a) >= n"},
+                 returns=Int, ensures={"FALSE": "result == n"}, loops={1: dict(inv={"k": "k == i"})})
+    # conditional append: the length is not the number of items scanned
+    reg.contract(SRC + "c_append", props=[], params=dict(xs=List(Int)), returns=Int,
+                 ensures={"FALSE": "result == len(xs)"}, loops={1: dict(inv={"le": "len(lst) <= idx_x"})})
+    # safety obligations must not be discharged without a precondition
+    reg.contract(SRC + "c_div", props=[], params=dict(a=Int, b=Int), returns=Int, ensures={"t": "True"})
+    reg.contract(SRC + "c_key", props=[], params=dict(k=Int), returns=Int, ensures={"t": "True"})
+    # NaN is not equal to itself
+    reg.contract(SRC + "c_nan", props=[], params=dict(x=Float), returns=Bool, ensures={"FALSE": "result"})
+    # a callee's modifies clause havocs the caller's array; its precondition is an obligation at the call
+    reg.contract(SRC + "c_helper", props=[], params=dict(v=Arr(Int), i=Int), requires={"i": "0 <= i and i < len(v)"},
+                 modifies=["v"], ensures={"z": "v[i] == 0"})
+    reg.contract(SRC + "c_call", props=[], params=dict(v=Arr(Int), n=Int), requires={"n": "len(v) >= 1"},
+                 modifies=["v"], returns=Int, ensures={"FALSE": "result == old(v)[0]"})
+    # a write through a row view of a matrix
+    reg.contract(SRC + "c_view", props=[], params=dict(m=Arr(Int, 2), i=Int),
+                 requires={"i": "0 <= i and i < len(m) and len(m[0]) >= 1"}, modifies=["m"], returns=Int,
+                 ensures={"FALSE": "result == old(m)[0][0]"})
+    return reg
+
+
+# obligation-name fragments that must NOT come back unsat, per canary function
+EXPECT_OPEN = {
+    "c_alias": ["ensures.FALSE"], "c_havoc": ["ensures.FALSE"], "c_break": ["ensures.FALSE"],
+    "c_append": ["ensures.FALSE"], "c_div": ["safety"], "c_key": ["safety.key"], "c_nan": ["ensures.FALSE"],
+    "c_call": ["ensures.FALSE", "pre."], "c_view": ["ensures.FALSE"],
+}
+
+
+def functions_wrongly_proved(timeout_ms=2500):
+    """(list of 'function: clause' whose deliberately false / unprovable obligation was discharged, number of obligations)"""
+    reg = _fn_registry()
+    root = os.path.dirname(os.path.dirname(os.path.abspath(__file__)))
+    jobs, owners = [], []
+    problems = []
+    for c in reg.by_key.values():
+        short = c.key.split("::")[-1]
+        if short not in EXPECT_OPEN:
+            continue
+        try:
+            eng, vcs, _sha = driver.gen_function_vcs(reg, c, root=root)
+        except Exception as e:      # a canary the engine no longer accepts: report, do not guess
+            problems.append("%s: canary not executable (%s: %s)" % (short, type(e).__name__, str(e)[:120]))
+            continue
+        seen = {frag: False for frag in EXPECT_OPEN[short]}
+        for vc in vcs:
+            for frag in EXPECT_OPEN[short]:
+                if frag in vc.name:
+                    seen[frag] = True
+                    if getattr(vc, "trivial", False):       # discharged by the simplifier alone
+                        problems.append("%s: %s discharged by the simplifier" % (short, vc.name))
+                        continue
+                    hyps = list(vc.hyps) + [h for h in eng.scope_constraints]
+                    hyps += solve.spec_closure(eng, reg.specs, hyps + [vc.goal])
+                    jobs.append((solve.to_smt2(hyps, vc.goal), timeout_ms, None, 0))
+                    owners.append((short, frag, vc.name))
+        for frag, ok in seen.items():
+            if not ok:
+                problems.append("%s: expected obligation %s was not generated" % (short, frag))
+    res = solve.discharge(jobs, procs=min(8, max(1, len(jobs))))
+    # an obligation is split per path: the false clause must stay open on at least one path
+    by = {}
+    for (short, frag, _n), r in zip(owners, res):
+        by.setdefault((short, frag), []).append(r["result"])
+    for (short, frag), rs in by.items():
+        if all(r == "unsat" for r in rs):
+            problems.append("%s: %s PROVED" % (short, frag))
+    return problems, len(jobs)
